@@ -3,7 +3,7 @@
    code's digitize-based Livetime methods (M_Livetime, tied to the code by its
    own kernels and correspondence). *)
 From Coq Require Import Reals ZArith List Bool Lra Lia.
-From Sky Require Import Num NumR Result PyList M_Livetime S_Livetime P_Livetime M_Pdf S_Pdf.
+From Sky Require Import Num NumR Result PyList M_Livetime S_Livetime P_Livetime G_pdf M_Pdf M_PdfExt S_Pdf.
 Import ListNotations.
 
 Definition IZR2 (iv : Z * Z) : R * R := (IZR (fst iv), IZR (snd iv)).
@@ -107,3 +107,11 @@ Section Bridge.
     intros H. exact (chain_chainR l ((l, u) :: r) H).
   Qed.
 End Bridge.
+
+(* the range test of BinningDefinition.any_data_out_of_range read over Z (index
+   model) and over the extended reals (NaN model) agree on integer values *)
+Theorem bin_oor_bridge (erf : R -> R) x lo up :
+  bin_oor_n (XNum erf) (Fin (IZR x)) (Fin (IZR lo)) (Fin (IZR up)) = bin_oor x lo up.
+Proof.
+  unfold bin_oor_n, bin_oor. cbn [nleb XNum xleb]. rewrite !Rleb_IZR, Z.geb_leb. reflexivity.
+Qed.
